@@ -28,7 +28,7 @@ func coreC17(tier string) []RunSpec {
 var c17Fees = []uint{0, 100, 1000}
 
 // wallet-level step kinds
-var wwKinds = []string{"mint", "send", "receive", "sendlocked", "melt", "resolvemelt", "reclaim", "mintswap", "rotate"}
+var wwKinds = []string{"mint", "send", "receive", "sendlocked", "melt", "resolvemelt", "reclaim", "mintswap", "rotate", "remelt"}
 
 func (ww *WW) Step(kind int) {
 	switch wwKinds[kind] {
@@ -50,6 +50,8 @@ func (ww *WW) Step(kind int) {
 		ww.StepMintSwap()
 	case "rotate":
 		ww.StepRotate([]uint64{0, 100, 1000})
+	case "remelt":
+		ww.StepRemelt()
 	}
 }
 
@@ -82,8 +84,8 @@ func runC17(rc *RunCtx) {
 		rc.Nontrivial = true
 		return
 	}
-	// weights:       mint send receive sendlocked melt resolvemelt reclaim mintswap rotate
-	weights := []int{2, 5, 5, 2, 3, 2, 2, 1, 1}
+	// weights:       mint send receive sendlocked melt resolvemelt reclaim mintswap rotate remelt
+	weights := []int{2, 5, 5, 2, 3, 2, 2, 1, 1, 2}
 	rc.StepLoop(4, 18, func(i int) {
 		ww.step = i
 		ww.Step(T.Pick("step.kind", weights...))
